@@ -266,6 +266,15 @@ func cmdCheck(args []string) int {
 	if *tier == "thorough" {
 		q1, q2 = 10, 180
 	}
+	// an obligation named by an open known finding is expected to fail: it gets a
+	// short budget (the finding's exclusion query decides its attribution)
+	for _, o := range todo {
+		for _, kf := range kfs {
+			if kf.Status == "open" && kf.Property == *prop && obligationMatches(o.Name, kf.Obligation) {
+				o.ShortBudget = true
+			}
+		}
+	}
 	ts := time.Now()
 	dischargeAll(todo, work, *par, q1, q2)
 	solveWall := time.Since(ts).Seconds()
@@ -401,7 +410,27 @@ func cmdCheck(args []string) int {
 	var solverSecs float64
 	backends := map[string]int{}
 	var perOb []map[string]any
+	repOfFx := map[*fx]*fnReport{}
+	repOfFn := map[string]*fnReport{}
+	for _, r := range reports {
+		if x := fxs[r.Function]; x != nil {
+			repOfFx[x] = r
+		}
+		if _, dup := repOfFn[r.Function]; !dup {
+			repOfFn[r.Function] = r
+		}
+	}
 	for _, o := range proofObs {
+		r := repOfFx[o.fx]
+		if r == nil {
+			r = repOfFn[o.Fn]
+		}
+		if r != nil {
+			r.Obligations++
+			if o.Status == "proved" {
+				r.Discharged++
+			}
+		}
 		if o.Status == "proved" {
 			discharged++
 			backends[o.Backend]++
